@@ -56,7 +56,7 @@ def main():
         if p.returncode:
             print(p.stdout.decode())
             return 2
-    sh(["git", "-C", WT, "checkout", "--", "."])
+    sh(["git", "-C", WT, "checkout", "--", "."]); sh(["git", "-C", WT, "clean", "-fdq", "src"])
     sh(["git", "-C", WT, "checkout", "--detach", BASES.get(name) or sh(["git", "-C", "/repo", "rev-parse", "HEAD"]).stdout.decode().strip()])
 
     def build(tag):
@@ -98,7 +98,7 @@ def main():
     meta["ran"].append({"cmd": "demo with the patched tree", "exit": rc1, "tail": out1[-300:]})
     meta["confirmed"] = bool(passed and rc0 == 0 and rc1 == 1)
     print("confirm: tests_pass=%s demo_unchanged=%s demo_patched=%s" % (passed, rc0, rc1))
-    sh(["git", "-C", WT, "checkout", "--", "."])
+    sh(["git", "-C", WT, "checkout", "--", "."]); sh(["git", "-C", WT, "clean", "-fdq", "src"])
     # ---- run the checks against /repo with the patch applied, then undo
     results = {}
     st = sh(["git", "-C", "/repo", "status", "--porcelain", "--untracked-files=no"]).stdout.decode().strip()
@@ -116,7 +116,7 @@ def main():
             print("patch does not apply to /repo:", p.stdout.decode())
             return 2
         in_repo = False
-        sh(["git", "-C", WT, "checkout", "--", "."])
+        sh(["git", "-C", WT, "checkout", "--", "."]); sh(["git", "-C", WT, "clean", "-fdq", "src"])
         sh(["git", "-C", WT, "checkout", "--detach", base])
         if sh(["git", "-C", WT, "apply", os.path.join(dst, "patch.diff")]).returncode:
             print("patch does not apply to its base either")
@@ -135,9 +135,9 @@ def main():
                 print(out[-1500:])
     finally:
         if in_repo:
-            sh(["git", "-C", "/repo", "checkout", "--", "."])
+            sh(["git", "-C", "/repo", "checkout", "--", "."]); sh(["git", "-C", "/repo", "clean", "-fdq", "src"])
         else:
-            sh(["git", "-C", WT, "checkout", "--", "."])
+            sh(["git", "-C", WT, "checkout", "--", "."]); sh(["git", "-C", WT, "clean", "-fdq", "src"])
         sh(["git", "-C", VERIF, "checkout", "--", "evidence"])
         # replays written while testing a seeded change are not findings about /repo
         for f in glob.glob(os.path.join(VERIF, "replays", "*.json")):
